@@ -1,4 +1,5 @@
 import RasnModel.Proofs.Struct
+import RasnModel.Props.C02
 /-
   C05 — extension markers, additions and addition groups are preserved.
   Model: Lexer/Assemble.lean (members = root ++ additions, index of first addition = root.length,
@@ -156,15 +157,6 @@ def wf : Nat → SrcType → Bool
   | 0 => fun _ => true
   | f + 1 => wfLevel (wf f)
 
-theorem flatMap_congr' {α β : Type} {f g : α → List β} : ∀ (l : List α), (∀ a ∈ l, f a = g a) → l.flatMap f = l.flatMap g := by
-  intro l
-  induction l with
-  | nil => intro _; rfl
-  | cons a t ih =>
-    intro h
-    simp only [List.flatMap_cons]
-    rw [h a List.mem_cons_self, ih (fun x hx => h x (List.mem_cons_of_mem _ hx))]
-
 theorem level_all (ctx : Ctx) (sctx : SCtx) (himp : ctx.implied = sctx.implied) (recG : Rec) (recS : SRec) (wfr : SrcType → Bool)
     (hrec : ∀ fl n t t' ty, wfr ty = true → (recG fl n t ty).map projC05 = (recS n t' ty).map projC05)
     (fl : Bool) (name : String) (tag tag' : Option Tag) (ty : SrcType) (hw : wfLevel wfr ty = true) :
@@ -281,5 +273,65 @@ theorem C05_all_depths (ctx : Ctx) (sctx : SCtx) (himp : ctx.implied = sctx.impl
     intro fl name tag tag' ty hw
     exact level_all ctx sctx himp (genItems ctx f) (specItems sctx f) (wf f)
       (fun fl n t t' ty h => ih fl n t t' ty h) fl name tag tag' ty hw
+
+end Props.C05
+
+namespace Props.C05
+open IR Lexer Gen.Struct Spec.Struct Proofs.Struct
+
+/-- the named marks are determined by the positional marks (C05) and the field names (C02) -/
+def combine (c2 : ItemKind × Bool × List (String × String × Bool)) (c5 : Bool × List ExtF) : Bool × List (String × ExtF) :=
+  (c5.1, (c2.2.2.map (·.1)).zip c5.2)
+
+theorem zip_names (l : List FieldF) :
+    l.map (fun f => (f.name, f.ext)) = ((l.map fun f => (f.name, f.ty, f.hasDefault)).map (·.1)).zip (l.map (·.ext)) := by
+  induction l with
+  | nil => rfl
+  | cons a t ih => simp only [List.map_cons, List.zip_cons_cons, ih]
+
+theorem projC05n_eq (i : ItemF) : projC05n i = combine (projC02 i) (projC05 i) := by
+  simp only [projC05n, combine, projC02, projC05, zip_names]
+
+theorem map_combine {α β γ δ : Type} (f : α → β) (g : α → γ) (c : γ → β → δ) :
+    ∀ (l1 l2 : List α), l1.map f = l2.map f → l1.map g = l2.map g →
+      l1.map (fun x => c (g x) (f x)) = l2.map (fun x => c (g x) (f x)) := by
+  intro l1
+  induction l1 with
+  | nil => intro l2 h _; cases l2 with
+    | nil => rfl
+    | cons b t => simp at h
+  | cons a t ih =>
+    intro l2 hf hg
+    cases l2 with
+    | nil => simp at hf
+    | cons b t2 =>
+      simp only [List.map_cons, List.cons.injEq] at hf hg ⊢
+      exact ⟨by rw [hf.1, hg.1], ih t2 hf.2 hg.2⟩
+
+/-- C05 by name, at every nesting depth: in every item the generator emits, the *named* components
+    that carry an extension mark are exactly the ones written after the marker (positional marks from
+    `C05_all_depths`, names in order from `C02_all_depths`). A generator that kept the marks by
+    position but permuted the components under them would satisfy the former and not this. -/
+theorem C05_named_all_depths (ctx : Ctx) (sctx : SCtx) (himp : ctx.implied = sctx.implied)
+    (fuel : Nat) (fl : Bool) (name : String) (tag tag' : Option Tag) (ty : SrcType)
+    (hw : wf fuel ty = true) (hw2 : Props.C02.wf fuel ty = true) :
+    (genItems ctx fuel fl name tag ty).map projC05n = (specItems sctx fuel name tag' ty).map projC05n := by
+  have h5 := C05_all_depths ctx sctx himp fuel fl name tag tag' ty hw
+  have h2 := Props.C02.C02_all_depths ctx sctx fuel fl name tag tag' ty hw2
+  have := map_combine projC05 projC02 combine _ _ h5 h2
+  simpa only [← projC05n_eq] using this
+
+/-- list equality of the named marks gives the order-insensitive comparison the driver applies -/
+theorem sameC05n_of_eq (o e : ItemF) (h : projC05n o = projC05n e) : sameC05n o e = true := by
+  simp only [projC05n, Prod.mk.injEq] at h
+  obtain ⟨h1, h2⟩ := h
+  have hl : o.fields.length = e.fields.length := by simpa using congrArg List.length h2
+  simp only [sameC05n, h1, hl, beq_self_eq_true, Bool.true_and, List.all_eq_true, List.any_eq_true, Bool.and_eq_true, beq_iff_eq]
+  intro f hf
+  have : (f.name, f.ext) ∈ e.fields.map (fun f => (f.name, f.ext)) := List.mem_map.mpr ⟨f, hf, rfl⟩
+  rw [← h2] at this
+  obtain ⟨g, hg, hge⟩ := List.mem_map.mp this
+  simp only [Prod.mk.injEq] at hge
+  exact ⟨g, hg, hge.1, hge.2⟩
 
 end Props.C05
